@@ -29,7 +29,7 @@ import (
 func init() {
 	Registry["C11"] = RunC11
 	Metas["C11"] = Meta{
-		Rule: "episode = 1..5 exchanges on one keep-alive connection of the real http1.HostClient: request built through the client API (method, URL with escaped path/query, header Set/Add, body as bytes / stream of known length / unknown length / LimitedReader / PostArgs form / multipart fields+file, basic-auth in the URL, proxy form) x generated response (fixed length, chunked with seeded chunk sizes and trailers, close-delimited, 204/304/HEAD bodiless, 100 Continue interim) x {buffered, streaming} x MaxResponseBodySize {unset, above, below} x header-name normalisation x seeded fragmentation of the response; parties: client <-> scripted server (request bytes decoded by the strict reader and net/http.ReadRequest) and client <-> real hertz server over the simulated network. Non-trivial: >= 2 exchanges or a response delivered in >= 2 fragments; distinct = abstract signature (request shape, response shape, mode, fragment buckets).",
+		Rule: "episode = 1..5 exchanges on one keep-alive connection of the real http1.HostClient: request built through the client API (method, URL with escaped path/query, header Set/Add, body as bytes / stream of known length / unknown length / LimitedReader / PostArgs form / multipart fields+file, basic-auth in the URL, proxy form) x generated response (fixed length, chunked with seeded chunk sizes and trailers, close-delimited, 204/304/HEAD bodiless, 100 Continue interim) x {buffered, streaming} x MaxResponseBodySize {unset, above, below} x header-name normalisation x seeded fragmentation of the response; parties: client <-> scripted server (request bytes decoded by the strict reader and net/http.ReadRequest) and client <-> real hertz server over the simulated network. Non-trivial: >= 2 exchanges or a response delivered in >= 2 fragments; distinct = abstract signature (request shape, response shape, mode, fragment buckets). Added later: server-initiated Connection: close followed by further exchanges, trailer fields without a Trailer announcement, spelling variants of the framing field names, callers that read only a prefix of a streamed body, requests abandoned with a cancelled context whose pooled objects are reused.",
 		Real: []string{"http1.HostClient.Do/doNonNilReqResp", "req.Write/writeBodyStream/handleMultipart", "resp.ReadHeaders/ReadRespBody/ReadRespBodyStream/clientRespStream", "ext.ReadBody/readBodyChunked/ReadTrailer/bodyStream", "standard.Conn", "e2e party: route.Engine + http1.Server"},
 		Stub: []string{"TCP + dial (SimConn, SimDialer)", "scripted server (actor) in party (a)", "clock (synctest)"},
 		Assumptions: []string{
